@@ -28,3 +28,5 @@ EQUIVALENT = [
 ]
 BREAKING.append(('last group sliced from the sort permutation', 'phylib/io/array.py', "    spikes_in_clusters[clusters[-1]] = abs_spikes[idx[-1]:]", "    spikes_in_clusters[clusters[-1]] = rel_spikes[idx[-1]:]", ['C07.A1']))
 EQUIVALENT.append(('default ids folded into a conditional', 'phylib/io/array.py', "    abs_spikes = spike_ids[rel_spikes]", "    abs_spikes = rel_spikes if spike_ids is None else spike_ids[rel_spikes]"))
+EQUIVALENT.append(('_unique counted block by block, table grown by folding', A, "    x = x[x >= 0]\n    bc = np.bincount(x)\n", "    x = x[x >= 0]\n    bc = np.zeros(0, dtype=np.int64)\n    for i in range(0, len(x), 65536):\n        b = np.bincount(x[i:i + 65536])\n        if len(b) > len(bc):\n            b[:len(bc)] += bc\n            bc = b\n        else:\n            bc[:len(b)] += b\n"))
+BREAKING.append(('_unique counted block by block, table replaced', A, "    x = x[x >= 0]\n    bc = np.bincount(x)\n", "    x = x[x >= 0]\n    bc = np.zeros(0, dtype=np.int64)\n    for i in range(0, len(x), 65536):\n        b = np.bincount(x[i:i + 65536])\n        if len(b) > len(bc):\n            bc = b\n        else:\n            bc[:len(b)] += b\n", ['C07.A3']))
